@@ -53,7 +53,7 @@ SRC_ERROR src_reset(SRC_STATE * p)
 
 SRC_ERROR src_error(SRC_STATE * p)
 {
-  return -!!soxr_error(p);
+  return p? -!!soxr_error(p) : -1;
 }
 
 
@@ -101,7 +101,7 @@ long src_callback_read(SRC_STATE *p, double oi_ratio, long olen, float * obuf)
 
 SRC_ERROR src_simple(SRC_DATA * io, SRC_SRCTYPE id, int channels)
 {
-  size_t idone, odone;
+  size_t idone = 0, odone = 0;
   soxr_error_t error;
   soxr_quality_spec_t q_spec = soxr_quality_spec(SOXR_LSR0Q + (unsigned)id, 0);
   char const * e = getenv("SOXR_LSR_NUM_THREADS");
